@@ -14,9 +14,9 @@ import Driver.Util
     run i s HEX ...  (whole stream = `runStream`)   -> run <th->rc|-> | S:HEX ...
     xrc HEX                                         -> <ret> <string left>
 
-    spec lines:  rec L K i N name_0 .. name_{N-1} S K' em_1 .. em_K'
+    spec lines:  rec <o|e> L K i N name_0 .. name_{N-1} S K' em_1 .. em_K'
                  (S = the whole byte string host i's stream carried, em_j = the observed stdio calls)
-                 -> c05=<ok|bad> c06=<ok|tail-record-split|bad> label=<hex of the expected prefix>
+                 -> c05=<ok|bad> c06=<ok|tail-record-split|bad> dom=<0|1> label=<hex of the expected prefix>
 -/
 namespace Driver.RelayDrv
 open PdshVerif PdshVerif.Relay
@@ -110,10 +110,12 @@ def step (ops : BufOps β) (mk : Option β) (sizeMeta : Nat) (split : Bool)
     | _, none => (st, "bad-op")
   | _ => (st, "bad-op")
 
-/-- the property-level oracle -/
+/-- the property-level oracle; also the Lean-side validator of the domain (`Spec.Dom05` on the
+    stream, C strings for the names, host name shorter than LINEBUFSIZE): the check applies the
+    oracle only where `dom=1` -/
 def specLine (line : String) : String :=
   match Driver.words line with
-  | "rec" :: l :: k :: i :: n :: rest =>
+  | "rec" :: kind :: l :: k :: i :: n :: rest =>
     match i.toNat?, n.toNat? with
     | some i, some n =>
       match (rest.take n).mapM Hex.decode, (rest.drop n) with
@@ -124,7 +126,10 @@ def specLine (line : String) : String :=
           let c05 := if Spec.c05Ok p s ems then "ok" else "bad"
           let c06 := if Spec.c06Ok p s ems then "ok"
                      else if Spec.tailSplitForm p s ems then "tail-record-split" else "bad"
-          s!"c05={c05} c06={c06} label={Hex.encode p}"
+          let marker : Option Bytes := if kind = "o" then some magic else none
+          let nameOk := names.all (fun t => t.all (· ≠ 0)) && decide (h.length < Gen.LINEBUFSIZE)
+          let dom := Spec.Dom05 marker s && nameOk
+          s!"c05={c05} c06={c06} dom={if dom then 1 else 0} label={Hex.encode p}"
         | _, _, _ => "bad-op"
       | _, _ => "bad-op"
     | _, _ => "bad-op"
